@@ -22,6 +22,10 @@ def x_obligations(tier):
                 continue
             o.append(Obl(f"C01-uri[t={ti},{pre!r}+{n}]", M, "uri", env={"VF_N": str(n), "VF_TI": str(ti), "VF_PRE": pre}, timeout=T, family="C01-uri",
                          bound=f"forced type #{ti} (13 configured types, 'bogus', ''), s = {pre!r}+t, every t with len<={n}"))
+    ship = [("hamlet/a/char/", 1, ""), ("hamlet/s/sq01", 1, "/sh0010"), ("hamlet/a/char/x/model/v00", 1, "/w/ma"), ("hamlet/", 1, ""), ("hamlet", 1, "")]
+    for pre, n, suf in ship:
+        o.append(Obl(f"C01-oracle[shipped,{pre!r}+{n}+{suf!r}]", M, "oracle", env={"VF_CONF": "shipped", "VF_PRE": pre, "VF_N": str(n), "VF_SUF": suf}, timeout=T, path_timeout=200, family="C01-shipped",
+                     bound=f"shipped configuration: s = {pre!r}+c+{suf!r}, c one symbolic character"))
     o.append(Obl("C01-reach[len<=6]", M, "reach_typed", env={"VF_N": "6"}, timeout=150, expect="refute", family="C01-twin"))
     return o
 
